@@ -2,3 +2,5 @@ import Sio.Model.Json
 import Sio.Model.Codec
 import Sio.Model.Rooms
 import Sio.Props.C01
+import Sio.Model.Dispatch
+import Sio.Props.C13
